@@ -135,13 +135,19 @@ Definition get_db_from_ctx (c : cx) (m : string) : bool :=
 
 (* ------------------------------------------------------------------ guard sequences *)
 
-Definition cond_holds (cf : cfg) (d : cond) : bool :=
+(* the login counter of the user reaches zero when this credential's login is removed: always for a
+   session credential (sessions are not counted), for a token unless a second login is alive *)
+Definition last_login (c : cx) : bool :=
+  negb (hdr_eqb (cx_hdr c) HTok2 && sstate_eqb (cx_st c) SValid).
+
+Definition cond_holds (c : cx) (d : cond) : bool :=
   match d with
-  | CMaint => maint_on cf
-  | CNotMaint => negb (maint_on cf)
-  | CAuth => auth_on cf
-  | CNotAuth => negb (auth_on cf)
+  | CMaint => maint_on (cx_cfg c)
+  | CNotMaint => negb (maint_on (cx_cfg c))
+  | CAuth => auth_on (cx_cfg c)
+  | CNotAuth => negb (auth_on (cx_cfg c))
   | COpaque => false
+  | CLastLogin => last_login c
   end.
 
 Definition chk_holds (c : cx) (k : chk) : bool :=
@@ -151,6 +157,14 @@ Definition chk_holds (c : cx) (k : chk) : bool :=
   | KAnyPerm p => has_any_permission (cx_kind c) p
   | KOpaque => true
   end.
+
+(* embedded/sql Engine.checkUserPermissions for a SELECT: the SELECT privilege must be among the
+   privileges multidbHandler.GetLoggedUser reports: all of them for the user NAMED immudb, else those
+   recorded for the selected database (defaults: SELECT for every permission level).  The anonymous
+   sysadmin of maintenance mode has no name and no privileges. *)
+Definition sql_read_allowed (c : cx) : bool :=
+  negb (maint_on (cx_cfg c)) &&
+  (is_sysadmin (cx_kind c) || negb (which_permission (cx_kind c) (cx_sel c) =? PermissionNone)).
 
 (* embedded/sql Engine.checkUserPermissions for a statement that is not read-only (INSERT):
    refused for PermissionReadOnly; the statement's privilege must be among the user's privileges on
@@ -181,7 +195,9 @@ Definition atom_passes (c : cx) (a : atom) : bool :=
   | ASess | ATx => has_session_header c && session_present c
   | ASessID => has_session_header c
   | ACred => negb (sstate_eqb (cx_st c) SDeact)      (* Login/OpenSession: "user is not active" *)
+  | ATok => match cred_of (cx_hdr c) (cx_st c) with CrTokOk => true | _ => false end
   | ACheck ks => existsb (chk_holds c) ks
+  | ASqlRead => sql_read_allowed c
   | ASqlWrite => sql_write_allowed c
   end.
 
@@ -193,12 +209,26 @@ Definition ratom_passes (c : cx) (a : ratom) : bool :=
 
 Record rstep := mk_rstep { r_when : list cond; r_atom : ratom }.
 
+(* Login / OpenSession read the user record afresh (getValidatedUser): checks that follow see the
+   permissions as they are NOW.  SReperm means the user's permission on "own" was revoked after the
+   credential was issued (the sysadmin's cannot be changed). *)
+Definition fresh_user (c : cx) : cx :=
+  match cx_st c, cx_kind c with
+  | SReperm, KSys => c
+  | SReperm, _ => mk_cx (cx_cfg c) KNone (cx_hdr c) (cx_sel c) (cx_tgt c) (cx_st c)
+  | _, _ => c
+  end.
+
+Definition is_cred_atom (a : ratom) : bool := match a with RPlain ACred => true | _ => false end.
+
 Fixpoint eval_steps (c : cx) (l : list rstep) : verdict :=
   match l with
   | [] => Through
   | s :: r =>
-      if forallb (cond_holds (cx_cfg c)) (r_when s)
-      then (if ratom_passes c (r_atom s) then eval_steps c r else Refused)
+      if forallb (cond_holds c) (r_when s)
+      then (if ratom_passes c (r_atom s)
+            then eval_steps (if is_cred_atom (r_atom s) then fresh_user c else c) r
+            else Refused)
       else eval_steps c r
   end.
 
@@ -211,7 +241,7 @@ Definition sql_layer (svc rpc : string) : list gstep :=
   else if String.eqb rpc "SQLExec" || String.eqb rpc "TxSQLExec"
   then [mk_gstep [] AUser; mk_gstep [] (ADb "SQLQuery"); mk_gstep [] ASqlWrite]
   else if String.eqb rpc "SQLQuery" || String.eqb rpc "UnarySQLQuery" || String.eqb rpc "TxSQLQuery"
-  then [mk_gstep [] AUser; mk_gstep [] (ADb "SQLQuery")]
+  then [mk_gstep [] AUser; mk_gstep [] (ADb "SQLQuery"); mk_gstep [] ASqlRead]
   else [].
 
 (* ------------------------------------------------------------------ interceptors + handler *)
@@ -404,8 +434,10 @@ Definition all_cx : list cx :=
 (* ------------------------------------------------------------------ structural requirements
    (what "has table entries and a gate" means for each class) *)
 
-(* a step that applies in every configuration where authentication is on *)
-Definition applies_with_auth (s : gstep) : bool := forallb (cond_holds CfgAuth) (g_when s).
+(* a step that applies to every request when authentication is on *)
+Definition cond_static_auth (d : cond) : bool :=
+  match d with CNotMaint | CAuth => true | _ => false end.
+Definition applies_with_auth (s : gstep) : bool := forallb cond_static_auth (g_when s).
 
 Definition is_db_gate_with_entry (s : gstep) : bool :=
   applies_with_auth s &&
